@@ -197,6 +197,30 @@ pub fn run(ctx: &Ctx) -> Outcome {
         }
     }
 
+    // (2b) well-formed documents around sizes that buffers and frame limits like: a byte string of
+    // n bytes bare, in a list, as a dictionary value and as a key; all must be accepted
+    let mut big_evals = 0u64;
+    for n in [4095usize, 4096, 8191, 8192, 65535, 65536, 65537, 100_000, 262_144, 262_145, 1 << 20] {
+        let body: Vec<u8> = (0..n).map(|i| b"ilde012:-a"[i % 10]).collect();
+        let mut bare = format!("{}:", n).into_bytes();
+        bare.extend_from_slice(&body);
+        let mut forms: Vec<Vec<u8>> = vec![bare.clone()];
+        forms.push([&b"l"[..], &bare, b"e"].concat());
+        forms.push([&b"d1:a"[..], &bare, b"e"].concat());
+        forms.push([&b"d"[..], &bare, b"i1ee"].concat());
+        for f in forms {
+            let mut acc = Acc::default();
+            record(ctx, &mut acc, &f, "long-string");
+            big_evals += acc.evaluations;
+            total.evaluations += acc.evaluations;
+            total.ref_accepts += acc.ref_accepts;
+            for (k, v) in acc.violations {
+                *total.violations.entry(k).or_default() += v;
+            }
+        }
+    }
+    let _ = big_evals;
+
     // (3) nesting ladder, each rung in a subprocess
     let ladder = nesting_ladder(ctx);
     // (4) huge string-length headers, in a subprocess
@@ -260,7 +284,7 @@ pub fn run(ctx: &Ctx) -> Outcome {
     let mut o = Outcome::new("exploration");
     o.set("evaluations", json!(total.evaluations));
     o.set("distinct_nontrivial", json!(total.ref_accepts));
-    o.set("rule", json!(format!("(1) every byte string over the alphabet {:?} of length 0..={} (all distinct); (2) every corpus document, each of its truncations, each single-position substitution by an alphabet symbol, and -- with the bytes space, LF, CR, TAB, NUL, FF, 0xFF, which are outside the alphabet -- each single-position substitution, each single insertion and each appended pair (the corpus includes strings whose content is or ends in white space, at the end of a document and inside); (3) nesting ladder in subprocesses; (4) 18 huge / overflowing / zero-padded string-length headers in 6 positions (top level, inside a list, as dictionary value, in a tracker-like reply, with and without ':'), decoded in a subprocess; (5) wide documents: n = 1..=700 (thorough 3000) sibling containers (dictionaries, lists, alternating) at the top level, inside a list, as dictionary values and inside a nested list, each followed by a nested container: all well-formed. Non-trivial = inputs the reference recogniser accepts as a sequence of well-formed values (counted; for (1) they are distinct strings, (2) may repeat some).", String::from_utf8_lossy(strings::SIGMA), max_len)));
+    o.set("rule", json!(format!("(1) every byte string over the alphabet {:?} of length 0..={} (all distinct); (2) every corpus document, each of its truncations, each single-position substitution by an alphabet symbol, and -- with the bytes space, LF, CR, TAB, NUL, FF, 0xFF, which are outside the alphabet -- each single-position substitution, each single insertion and each appended pair (the corpus includes strings whose content is or ends in white space, at the end of a document and inside); (2b) byte strings of 4095, 4096, 8191, 8192, 65535, 65536, 65537, 100000, 262144, 262145 and 2^20 bytes bare, in a list, as a dictionary value and as a key (all well-formed); (3) nesting ladder in subprocesses; (4) 18 huge / overflowing / zero-padded string-length headers in 6 positions (top level, inside a list, as dictionary value, in a tracker-like reply, with and without ':'), decoded in a subprocess; (5) wide documents: n = 1..=700 (thorough 3000) sibling containers (dictionaries, lists, alternating) at the top level, inside a list, as dictionary values and inside a nested list, each followed by a nested container: all well-formed. Non-trivial = inputs the reference recogniser accepts as a sequence of well-formed values (counted; for (1) they are distinct strings, (2) may repeat some).", String::from_utf8_lossy(strings::SIGMA), max_len)));
     o.set("sigma_strings", json!(sigma_evals));
     o.set("mutation_inputs", json!(mutation_evals));
     o.set("corpus_documents", json!(docs.len()));
